@@ -4,21 +4,31 @@ import Mathlib.Analysis.SpecialFunctions.Trigonometric.Bounds
   C07  ET and TDB match the NAIF and ESA closed forms and round-trip within nanoseconds.
 
   PARTIAL by nature: `f64::sin` is an unspecified libm routine, so nothing can be proved about the
-  bits the code produces.  What is proved here is about the ALGORITHM — the very definitions of
-  `Model/Dynamical.lean` (`periodic`, `iterate`, `etMinusTai`, `etMinusTaiBack`) that the driver runs
-  at hardware `Float` — instantiated at ℝ with `Real.sin`: closed-form deviation, round trip and
-  strict monotonicity, with the NAIF / ESA constants pinned to the sources and to naif0012.txt.
+  bits the code produces.  What is proved here is about the ALGORITHM: every floating-point expression
+  of the ET/TDB arms is one generic definition of `Model/Dynamical.lean` (`deltaEtTaiG`, `innerGG`,
+  `etStepSrcG`, `etStepTgtG`, `etSrcDeltaG`, `etTgtDeltaG`, `tdbLoopG`, `tdbTgtGammaG`); the executable
+  model is their instance at hardware `Float` (`shared_definitions` below, by `rfl`) and the theorems are
+  about their instance at ℝ with `Real.sin` and `|·|`: closed-form deviation, round trip and order of
+  instants, for BOTH scales and BOTH directions, for any estimate the loops can exit with, with the
+  NAIF / ESA constants pinned to the sources and to naif0012.txt.
   The binary64 evaluation error is measured by the correspondence run (bit-for-bit against Rust) and
   judged by the property's closed forms with its 30 / 20 / 100 ns tolerances.
 -/
 namespace Hifi.C07
 open Real Hifi.Dyn
 
-/-- the constants in the sources are the ones of the NAIF leap second kernel shipped with them -/
+/-- the constants in the sources are the ones of the NAIF leap second kernel shipped with them:
+    K, EB, M0, M1 literally, and DELTET/DELTA_T_A = 32.184 s = `TT_OFFSET_MS` ms -/
 theorem naif_constants_pinned :
     Gen.NAIF_K_SRC_RAT = Gen.NAIF_TXT_K_RAT ∧ Gen.NAIF_EB_SRC_RAT = Gen.NAIF_TXT_EB_RAT ∧
     Gen.NAIF_M0_SRC_RAT = Gen.NAIF_TXT_M0_RAT ∧ Gen.NAIF_M1_SRC_RAT = Gen.NAIF_TXT_M1_RAT ∧
-    Gen.NAIF_TXT_DELTA_T_A_RAT = (32184, 1000) ∨ Gen.NAIF_TXT_DELTA_T_A_RAT = (4023, 125) := by decide
+    Gen.NAIF_TXT_DELTA_T_A_RAT = (4023, 125) ∧
+    Gen.NAIF_TXT_DELTA_T_A_RAT.1 * 1000 = Gen.TT_OFFSET_MS * Gen.NAIF_TXT_DELTA_T_A_RAT.2 := by decide
+
+/-- every conjunct of `naif_constants_pinned` is needed: the kernel's own values -/
+theorem naif_txt_values :
+    Gen.NAIF_TXT_K_RAT = (1657, 1000000) ∧ Gen.NAIF_TXT_EB_RAT = (1671, 100000) ∧
+    Gen.NAIF_TXT_M0_RAT = (1559999, 250000) ∧ Gen.NAIF_TXT_M1_RAT = (199096871, 1000000000000000) := by decide
 
 theorem naif_values :
     Gen.NAIF_K_SRC_RAT = (1657, 1000000) ∧ Gen.NAIF_EB_SRC_RAT = (1671, 100000) ∧
@@ -35,6 +45,25 @@ theorem j2000_pinned :
     Gen.PRIME_OFFSET_ET_C = 0 ∧ Gen.PRIME_OFFSET_ET_NS = (36524 * 86400 + 43200) * 1000000000 ∧
     Gen.PRIME_OFFSET_TDB_C = 0 ∧ Gen.PRIME_OFFSET_TDB_NS = Gen.PRIME_OFFSET_ET_NS ∧ Gen.ET_EPOCH_S * 1000000000 = Gen.PRIME_OFFSET_ET_NS := by
   decide
+
+/-- THE SHARED DEFINITIONS.  The executable Float model the driver compares with the implementation is,
+    definitionally, the hardware instance of the generic definitions the theorems below are about:
+    the float part of every arm is ONE application of a `…G` definition to `Float.sin` / `Float.abs` and
+    the binary64 constants, between `Duration::to_seconds` (`toSecondsF`) and `f64 * Unit::Second`
+    (`secondsDur`); the rest is exact `Duration` arithmetic. -/
+theorem shared_definitions :
+    (∀ x, deltaEtTaiF x = deltaEtTaiG Float.sin fK fEB fM0 fM1 ttSecondsF x) ∧
+    (∀ x, innerGF x = innerGG Float.sin fTAU f360 gG0 gG1 gK gEB x) ∧
+    (∀ d, etToTai d = Dur.add (Dur.sub d (secondsDur
+        (etSrcDeltaG Float.sin fK fEB fM0 fM1 ttSecondsF (toSecondsF d)))) etPrimeOffset) ∧
+    (∀ p, taiToEt p = Dur.sub (Dur.add p (secondsDur
+        (etTgtDeltaG Float.sin fK fEB fM0 fM1 ttSecondsF (toSecondsF (Dur.sub p etPrimeOffset))))) etPrimeOffset) ∧
+    (∀ d, tdbToTai d = Dur.add (Dur.sub d (Dur.add (secondsDur
+        (innerGG Float.sin fTAU f360 gG0 gG1 gK gEB (toSecondsF d))) ttOffset)) etPrimeOffset) ∧
+    (∀ p, taiToTdb p = Dur.sub (Dur.add p (Dur.add (secondsDur
+        (tdbTgtGammaG Float.sin Float.abs fTAU f360 gG0 gG1 gK gEB ttSecondsF f1em9 f1e8
+          (toSecondsF (Dur.sub p etPrimeOffset)))) ttOffset)) etPrimeOffset) :=
+  ⟨fun _ => rfl, fun _ => rfl, fun _ => rfl, fun _ => rfl, fun _ => rfl, fun _ => rfl⟩
 
 variable (K EB M0 M1 : ℝ)
 
@@ -68,134 +97,386 @@ theorem P_lipschitz (hK : 0 ≤ K) (hEB : 0 ≤ EB) (hM1 : 0 ≤ M1) (a b : ℝ)
       ≤ K * (M1 * |a - b| + EB * (M1 * |a - b|)) := mul_le_mul_of_nonneg_left (h1.trans h4) hK
     _ = K * (1 + EB) * M1 * |a - b| := by ring
 
-/-- each step of the loops moves the estimate by at most K: after n steps it is within n·K -/
-theorem iterate_near (hK : 0 ≤ K) (sgn : ℝ) (hs : |sgn| = 1) (n : ℕ) (s : ℝ) :
-    |iterate Real.sin K EB M0 M1 sgn n s - s| ≤ n * K := by
-  induction n generalizing s with
-  | zero => simp [iterate]
-  | succ n ih =>
-    unfold iterate
-    have h1 := ih (s + sgn * periodic Real.sin K EB M0 M1 s)
-    have h2 : |sgn * periodic Real.sin K EB M0 M1 s| ≤ K := by
-      rw [abs_mul, hs, one_mul]; exact P_abs_le K EB M0 M1 hK s
-    have : iterate Real.sin K EB M0 M1 sgn n (s + sgn * periodic Real.sin K EB M0 M1 s) - s =
-        (iterate Real.sin K EB M0 M1 sgn n (s + sgn * periodic Real.sin K EB M0 M1 s) - (s + sgn * periodic Real.sin K EB M0 M1 s))
-          + sgn * periodic Real.sin K EB M0 M1 s := by ring
-    rw [this]
-    refine (abs_add_le _ _).trans ?_
-    push_cast; linarith
+/-! ### the generic definitions at ℝ, in terms of the closed form `P` -/
 
-/-- (i) closed form: with `et = t + (ET−TAI)(t)` the ET seconds past J2000, the offset the algorithm
-    adds differs from the NAIF closed form `tt + K sin E(et)` by at most K(1+EB)M1·6K -/
-theorem closed_form_deviation (hK : 0 ≤ K) (hEB : 0 ≤ EB) (hM1 : 0 ≤ M1) (tt t : ℝ) :
-    |etMinusTai Real.sin K EB M0 M1 tt t - (tt + P K EB M0 M1 (t + etMinusTai Real.sin K EB M0 M1 tt t))|
-      ≤ K * (1 + EB) * M1 * (6 * K) := by
-  unfold etMinusTai
-  set s5 := iterate Real.sin K EB M0 M1 1 5 t with hs5
-  have hn := iterate_near K EB M0 M1 hK 1 (by simp) 5 t
-  rw [← hs5] at hn
-  have hp := P_abs_le K EB M0 M1 hK (s5 + tt)
-  have hl := P_lipschitz K EB M0 M1 hK hEB hM1 (s5 + tt) (t + (tt + P K EB M0 M1 (s5 + tt)))
-  have hd : |s5 + tt - (t + (tt + P K EB M0 M1 (s5 + tt)))| ≤ 6 * K := by
-    rw [show s5 + tt - (t + (tt + P K EB M0 M1 (s5 + tt))) = (s5 - t) + (- P K EB M0 M1 (s5 + tt)) by ring]
-    refine (abs_add_le _ _).trans ?_
-    rw [abs_neg]; push_cast at hn; linarith
+theorem deltaEtTaiG_real (tt x : ℝ) : deltaEtTaiG Real.sin K EB M0 M1 tt x = tt + P K EB M0 M1 x := by
+  unfold deltaEtTaiG P periodic
+  simp only [mul_comm x M1]
+
+/-- `inner_g` is the same closed form with `M0 := TAU/360·G0` (357.528° in radians when `TAU = 2π`), `M1 := G1` -/
+theorem innerGG_real (TAU c360 G0 G1 x : ℝ) :
+    innerGG Real.sin TAU c360 G0 G1 K EB x = P K EB (TAU / c360 * G0) G1 x := rfl
+
+theorem etStepSrcG_real (s : ℝ) : etStepSrcG Real.sin K EB M0 M1 s = s - P K EB M0 M1 s := by
+  unfold etStepSrcG P periodic; ring
+
+theorem etStepTgtG_real (s : ℝ) : etStepTgtG Real.sin K EB M0 M1 s = s + P K EB M0 M1 s := by
+  unfold etStepTgtG P periodic; ring
+
+/-! ### every loop exits within 5K of its input -/
+
+theorem etStepSrcG_near (hK : 0 ≤ K) (s : ℝ) : |etStepSrcG Real.sin K EB M0 M1 s - s| ≤ K := by
+  rw [etStepSrcG_real, show s - P K EB M0 M1 s - s = -P K EB M0 M1 s by ring, abs_neg]
+  exact P_abs_le K EB M0 M1 hK s
+
+theorem etStepTgtG_near (hK : 0 ≤ K) (s : ℝ) : |etStepTgtG Real.sin K EB M0 M1 s - s| ≤ K := by
+  rw [etStepTgtG_real, show s + P K EB M0 M1 s - s = P K EB M0 M1 s by ring]
+  exact P_abs_le K EB M0 M1 hK s
+
+/-- five applications of a map that moves its argument by at most K move it by at most 5K -/
+theorem five_steps_near (f : ℝ → ℝ) (hf : ∀ s, |f s - s| ≤ K) (s : ℝ) : |f (f (f (f (f s)))) - s| ≤ 5 * K := by
+  have h1 := abs_le.mp (hf s)
+  have h2 := abs_le.mp (hf (f s))
+  have h3 := abs_le.mp (hf (f (f s)))
+  have h4 := abs_le.mp (hf (f (f (f s))))
+  have h5 := abs_le.mp (hf (f (f (f (f s)))))
+  rw [abs_le]; constructor <;> linarith [h1.1, h1.2, h2.1, h2.2, h3.1, h3.2, h4.1, h4.2, h5.1, h5.2]
+
+/-- the TDB loop, WITH its early exit, returns a value within n·K of its input whatever the exit point,
+    for any `g` bounded by K, any `eps` and any initial `delta` -/
+theorem tdbLoopG_near (hK : 0 ≤ K) (g : ℝ → ℝ) (hg : ∀ x, |g x| ≤ K) (eps : ℝ) (n : ℕ) (s delta : ℝ) :
+    |tdbLoopG (fun x : ℝ => |x|) g eps n s delta - s| ≤ n * K := by
+  induction n generalizing s delta with
+  | zero => simp [tdbLoopG]
+  | succ n ih =>
+    unfold tdbLoopG
+    simp only []
+    split
+    · simp only [sub_self, abs_zero]; positivity
+    · have h1 := ih (s - g s) |s - g s - s|
+      have h2 : |s - g s - s| ≤ K := by rw [show s - g s - s = -g s by ring, abs_neg]; exact hg s
+      have h3 := abs_le.mp h1
+      have h4 := abs_le.mp h2
+      push_cast
+      rw [abs_le]; constructor <;> linarith [h3.1, h3.2, h4.1, h4.2]
+
+/-! ### statements for ANY estimate `s` within 5K of the input (covers every exit point of every loop)
+
+  `L = K(1+EB)M1` is the Lipschitz constant of the periodic term (≈ 3.4·10⁻¹⁰ for both scales). -/
+
+/-- TARGET arms (TAI → ET, TAI → TDB).  The arm adds `off = tt + P(s + tt)` to the TAI seconds `t`, `s` being
+    its loop's estimate.  The closed form of the property evaluated at the RESULT (`t + off` seconds past
+    J2000 in ET/TDB) differs from `off` by at most L·6K; evaluated at TT (`t + tt`), by at most L·5K. -/
+theorem target_deviation (hK : 0 ≤ K) (hEB : 0 ≤ EB) (hM1 : 0 ≤ M1) (tt t s : ℝ) (hs : |s - t| ≤ 5 * K) :
+    let off := tt + P K EB M0 M1 (s + tt)
+    |off - (tt + P K EB M0 M1 (t + off))| ≤ K * (1 + EB) * M1 * (6 * K) ∧
+    |off - (tt + P K EB M0 M1 (t + tt))| ≤ K * (1 + EB) * M1 * (5 * K) := by
+  intro off
   have hpos : 0 ≤ K * (1 + EB) * M1 := by positivity
-  show |tt + P K EB M0 M1 (s5 + tt) - (tt + P K EB M0 M1 (t + (tt + P K EB M0 M1 (s5 + tt))))| ≤ _
-  rw [show tt + P K EB M0 M1 (s5 + tt) - (tt + P K EB M0 M1 (t + (tt + P K EB M0 M1 (s5 + tt))))
-      = P K EB M0 M1 (s5 + tt) - P K EB M0 M1 (t + (tt + P K EB M0 M1 (s5 + tt))) by ring]
+  have hp := abs_le.mp (P_abs_le K EB M0 M1 hK (s + tt))
+  have hs' := abs_le.mp hs
+  constructor
+  · have hl := P_lipschitz K EB M0 M1 hK hEB hM1 (s + tt) (t + off)
+    have hd : |s + tt - (t + off)| ≤ 6 * K := by
+      rw [show s + tt - (t + off) = (s - t) - P K EB M0 M1 (s + tt) by simp only [off]; ring, abs_le]
+      constructor <;> linarith [hp.1, hp.2, hs'.1, hs'.2]
+    rw [show off - (tt + P K EB M0 M1 (t + off)) = P K EB M0 M1 (s + tt) - P K EB M0 M1 (t + off) by
+      simp only [off]; ring]
+    exact hl.trans (mul_le_mul_of_nonneg_left hd hpos)
+  · have hl := P_lipschitz K EB M0 M1 hK hEB hM1 (s + tt) (t + tt)
+    rw [show s + tt - (t + tt) = s - t by ring] at hl
+    rw [show off - (tt + P K EB M0 M1 (t + tt)) = P K EB M0 M1 (s + tt) - P K EB M0 M1 (t + tt) by
+      simp only [off]; ring]
+    exact hl.trans (mul_le_mul_of_nonneg_left hs hpos)
+
+/-- ET SOURCE arm (ET → TAI).  The arm subtracts `off = tt + P(b − tt)` from the ET seconds `e`, `b` being its
+    loop's estimate: the closed form at `e` differs from `off` by at most L·(tt + 5K) (the sine is evaluated
+    `tt` seconds early), i.e. 10.9 ns with the NAIF constants. -/
+theorem et_source_deviation (hK : 0 ≤ K) (hEB : 0 ≤ EB) (hM1 : 0 ≤ M1) (tt e b : ℝ) (htt : 0 ≤ tt)
+    (hb : |b - e| ≤ 5 * K) :
+    |(tt + P K EB M0 M1 (b - tt)) - (tt + P K EB M0 M1 e)| ≤ K * (1 + EB) * M1 * (tt + 5 * K) := by
+  have hpos : 0 ≤ K * (1 + EB) * M1 := by positivity
+  have hl := P_lipschitz K EB M0 M1 hK hEB hM1 (b - tt) e
+  have hb' := abs_le.mp hb
+  have hd : |b - tt - e| ≤ tt + 5 * K := by rw [abs_le]; constructor <;> linarith [hb'.1, hb'.2]
+  rw [show tt + P K EB M0 M1 (b - tt) - (tt + P K EB M0 M1 e) = P K EB M0 M1 (b - tt) - P K EB M0 M1 e by ring]
   exact hl.trans (mul_le_mul_of_nonneg_left hd hpos)
 
-/-- (ii) round trip TAI → ET → TAI on ℝ: the error is at most K(1+EB)M1·(tt + 11K)
-    (the backward sine is evaluated `tt` seconds early) -/
-theorem round_trip_error (hK : 0 ≤ K) (hEB : 0 ≤ EB) (hM1 : 0 ≤ M1) (tt t : ℝ) (htt : 0 ≤ tt) :
-    let et := t + etMinusTai Real.sin K EB M0 M1 tt t
-    |(et - etMinusTaiBack Real.sin K EB M0 M1 tt et) - t| ≤ K * (1 + EB) * M1 * (tt + 11 * K) := by
-  intro et
-  unfold etMinusTaiBack
-  set s5 := iterate Real.sin K EB M0 M1 1 5 t with hs5
-  set b5 := iterate Real.sin K EB M0 M1 (-1) 5 et with hb5
-  have hn := iterate_near K EB M0 M1 hK 1 (by simp) 5 t
-  have hnb := iterate_near K EB M0 M1 hK (-1) (by simp) 5 et
-  rw [← hs5] at hn; rw [← hb5] at hnb
-  have het : et = t + (tt + P K EB M0 M1 (s5 + tt)) := rfl
-  have hp := P_abs_le K EB M0 M1 hK (s5 + tt)
-  have hl := P_lipschitz K EB M0 M1 hK hEB hM1 (s5 + tt) (b5 - tt)
-  have hd : |s5 + tt - (b5 - tt)| ≤ tt + 11 * K := by
-    rw [show s5 + tt - (b5 - tt) = (s5 - t) + (-(b5 - et)) + (tt - P K EB M0 M1 (s5 + tt)) by rw [het]; ring]
-    refine (abs_add_le _ _).trans ?_
-    have h1 := abs_add_le (s5 - t) (-(b5 - et))
-    rw [abs_neg] at h1
-    have h2 : |tt - P K EB M0 M1 (s5 + tt)| ≤ tt + K := by
-      refine (abs_sub _ _).trans ?_
-      rw [abs_of_nonneg htt]; linarith
-    push_cast at hn hnb; linarith
+/-- ET round trip TAI → ET → TAI, any two estimates: the error is at most L·(tt + 11K) -/
+theorem et_round_trip (hK : 0 ≤ K) (hEB : 0 ≤ EB) (hM1 : 0 ≤ M1) (tt t s b : ℝ) (htt : 0 ≤ tt)
+    (hs : |s - t| ≤ 5 * K) :
+    let et := t + (tt + P K EB M0 M1 (s + tt))
+    |b - et| ≤ 5 * K → |(et - (tt + P K EB M0 M1 (b - tt))) - t| ≤ K * (1 + EB) * M1 * (tt + 11 * K) := by
+  intro et hb
   have hpos : 0 ≤ K * (1 + EB) * M1 := by positivity
-  show |et - (tt + P K EB M0 M1 (b5 - tt)) - t| ≤ _
-  rw [show et - (tt + P K EB M0 M1 (b5 - tt)) - t = P K EB M0 M1 (s5 + tt) - P K EB M0 M1 (b5 - tt) by rw [het]; ring]
+  have hp := abs_le.mp (P_abs_le K EB M0 M1 hK (s + tt))
+  have hs' := abs_le.mp hs
+  have hb' := abs_le.mp hb
+  have hl := P_lipschitz K EB M0 M1 hK hEB hM1 (s + tt) (b - tt)
+  have hd : |s + tt - (b - tt)| ≤ tt + 11 * K := by
+    rw [show s + tt - (b - tt) = (s - t) - (b - et) + (tt - P K EB M0 M1 (s + tt)) by simp only [et]; ring, abs_le]
+    constructor <;> linarith [hp.1, hp.2, hs'.1, hs'.2, hb'.1, hb'.2]
+  rw [show et - (tt + P K EB M0 M1 (b - tt)) - t = P K EB M0 M1 (s + tt) - P K EB M0 M1 (b - tt) by
+    simp only [et]; ring]
   exact hl.trans (mul_le_mul_of_nonneg_left hd hpos)
 
-/-- every step `s ↦ s + sgn·P(s)` is (1 + L)-Lipschitz, so the n-step iterate is (1+L)ⁿ-Lipschitz -/
-theorem iterate_lipschitz (hK : 0 ≤ K) (hEB : 0 ≤ EB) (hM1 : 0 ≤ M1) (sgn : ℝ) (hs : |sgn| = 1) (n : ℕ) (a b : ℝ) :
-    |iterate Real.sin K EB M0 M1 sgn n a - iterate Real.sin K EB M0 M1 sgn n b|
-      ≤ (1 + K * (1 + EB) * M1) ^ n * |a - b| := by
-  induction n generalizing a b with
-  | zero => simp [iterate]
-  | succ n ih =>
-    unfold iterate
-    refine (ih _ _).trans ?_
-    have hL : 0 ≤ K * (1 + EB) * M1 := by positivity
-    have hstep : |a + sgn * periodic Real.sin K EB M0 M1 a - (b + sgn * periodic Real.sin K EB M0 M1 b)|
-        ≤ (1 + K * (1 + EB) * M1) * |a - b| := by
-      rw [show a + sgn * periodic Real.sin K EB M0 M1 a - (b + sgn * periodic Real.sin K EB M0 M1 b)
-          = (a - b) + sgn * (P K EB M0 M1 a - P K EB M0 M1 b) by unfold P; ring]
-      refine (abs_add_le _ _).trans ?_
-      rw [abs_mul, hs, one_mul]
-      have := P_lipschitz K EB M0 M1 hK hEB hM1 a b
-      linarith
-    calc (1 + K * (1 + EB) * M1) ^ n * |a + sgn * periodic Real.sin K EB M0 M1 a - (b + sgn * periodic Real.sin K EB M0 M1 b)|
-        ≤ (1 + K * (1 + EB) * M1) ^ n * ((1 + K * (1 + EB) * M1) * |a - b|) :=
-          mul_le_mul_of_nonneg_left hstep (by positivity)
-      _ = (1 + K * (1 + EB) * M1) ^ (n + 1) * |a - b| := by ring
+/-- ET round trip in the other direction, ET → TAI → ET, any two estimates: same bound -/
+theorem et_round_trip_rev (hK : 0 ≤ K) (hEB : 0 ≤ EB) (hM1 : 0 ≤ M1) (tt e b s : ℝ) (htt : 0 ≤ tt)
+    (hb : |b - e| ≤ 5 * K) :
+    let tai := e - (tt + P K EB M0 M1 (b - tt))
+    |s - tai| ≤ 5 * K → |(tai + (tt + P K EB M0 M1 (s + tt))) - e| ≤ K * (1 + EB) * M1 * (tt + 11 * K) := by
+  intro tai hs
+  have hpos : 0 ≤ K * (1 + EB) * M1 := by positivity
+  have hp := abs_le.mp (P_abs_le K EB M0 M1 hK (b - tt))
+  have hs' := abs_le.mp hs
+  have hb' := abs_le.mp hb
+  have hl := P_lipschitz K EB M0 M1 hK hEB hM1 (s + tt) (b - tt)
+  have hd : |s + tt - (b - tt)| ≤ tt + 11 * K := by
+    rw [show s + tt - (b - tt) = (s - tai) - (b - e) + (tt - P K EB M0 M1 (b - tt)) by simp only [tai]; ring, abs_le]
+    constructor <;> linarith [hp.1, hp.2, hs'.1, hs'.2, hb'.1, hb'.2]
+  rw [show tai + (tt + P K EB M0 M1 (s + tt)) - e = P K EB M0 M1 (s + tt) - P K EB M0 M1 (b - tt) by
+    simp only [tai]; ring]
+  exact hl.trans (mul_le_mul_of_nonneg_left hd hpos)
 
-/-- (iii) the map TAI ↦ ET is strictly increasing whenever L(1+L)⁵ < 1 (L = K(1+EB)M1 ≈ 3.4·10⁻¹⁰),
-    which gives order preservation beyond any evaluation error -/
-theorem forward_strictly_increasing (hK : 0 ≤ K) (hEB : 0 ≤ EB) (hM1 : 0 ≤ M1) (tt : ℝ)
+/-- TDB round trips.  The TDB source arm subtracts exactly the closed form `tt + P(d)` at its own seconds `d`
+    (no loop), so both round trips are within L·6K of the identity -/
+theorem tdb_round_trip (hK : 0 ≤ K) (hEB : 0 ≤ EB) (hM1 : 0 ≤ M1) (tt t s : ℝ) (hs : |s - t| ≤ 5 * K) :
+    let tdb := t + (tt + P K EB M0 M1 (s + tt))
+    |(tdb - (tt + P K EB M0 M1 tdb)) - t| ≤ K * (1 + EB) * M1 * (6 * K) := by
+  intro tdb
+  have h := (target_deviation K EB M0 M1 hK hEB hM1 tt t s hs).1
+  rw [show tdb - (tt + P K EB M0 M1 tdb) - t
+      = tt + P K EB M0 M1 (s + tt) - (tt + P K EB M0 M1 (t + (tt + P K EB M0 M1 (s + tt)))) by simp only [tdb]; ring]
+  exact h
+
+theorem tdb_round_trip_rev (hK : 0 ≤ K) (hEB : 0 ≤ EB) (hM1 : 0 ≤ M1) (tt d s : ℝ) :
+    let tai := d - (tt + P K EB M0 M1 d)
+    |s - tai| ≤ 5 * K → |(tai + (tt + P K EB M0 M1 (s + tt))) - d| ≤ K * (1 + EB) * M1 * (6 * K) := by
+  intro tai hs
+  have hpos : 0 ≤ K * (1 + EB) * M1 := by positivity
+  have hp := abs_le.mp (P_abs_le K EB M0 M1 hK d)
+  have hs' := abs_le.mp hs
+  have hl := P_lipschitz K EB M0 M1 hK hEB hM1 (s + tt) d
+  have hd : |s + tt - d| ≤ 6 * K := by
+    rw [show s + tt - d = (s - tai) - P K EB M0 M1 d by simp only [tai]; ring, abs_le]
+    constructor <;> linarith [hp.1, hp.2, hs'.1, hs'.2]
+  rw [show tai + (tt + P K EB M0 M1 (s + tt)) - d = P K EB M0 M1 (s + tt) - P K EB M0 M1 d by simp only [tai]; ring]
+  exact hl.trans (mul_le_mul_of_nonneg_left hd hpos)
+
+/-- ORDER, target arms, any two estimates (so also across different exit points of the TDB loop):
+    instants further apart than L·(gap + 10K) keep their order — with either set of constants every
+    gap ≥ 5.7·10⁻¹² s qualifies (`order_gap_numbers`), far below the property's 100 ns -/
+theorem target_order (hK : 0 ≤ K) (hEB : 0 ≤ EB) (hM1 : 0 ≤ M1) (tt t1 t2 s1 s2 : ℝ)
+    (h1 : |s1 - t1| ≤ 5 * K) (h2 : |s2 - t2| ≤ 5 * K) (hlt : t1 < t2)
+    (hgap : K * (1 + EB) * M1 * ((t2 - t1) + 10 * K) < t2 - t1) :
+    t1 + (tt + P K EB M0 M1 (s1 + tt)) < t2 + (tt + P K EB M0 M1 (s2 + tt)) := by
+  have hpos : 0 ≤ K * (1 + EB) * M1 := by positivity
+  have hl := P_lipschitz K EB M0 M1 hK hEB hM1 (s1 + tt) (s2 + tt)
+  have h1' := abs_le.mp h1
+  have h2' := abs_le.mp h2
+  have hd : |s1 + tt - (s2 + tt)| ≤ (t2 - t1) + 10 * K := by
+    rw [abs_le]; constructor <;> linarith [h1'.1, h1'.2, h2'.1, h2'.2]
+  have h3 := abs_le.mp (hl.trans (mul_le_mul_of_nonneg_left hd hpos))
+  linarith [h3.1, h3.2]
+
+/-- ORDER, ET source arm, any two estimates -/
+theorem et_source_order (hK : 0 ≤ K) (hEB : 0 ≤ EB) (hM1 : 0 ≤ M1) (tt e1 e2 b1 b2 : ℝ)
+    (h1 : |b1 - e1| ≤ 5 * K) (h2 : |b2 - e2| ≤ 5 * K) (hlt : e1 < e2)
+    (hgap : K * (1 + EB) * M1 * ((e2 - e1) + 10 * K) < e2 - e1) :
+    e1 - (tt + P K EB M0 M1 (b1 - tt)) < e2 - (tt + P K EB M0 M1 (b2 - tt)) := by
+  have hpos : 0 ≤ K * (1 + EB) * M1 := by positivity
+  have hl := P_lipschitz K EB M0 M1 hK hEB hM1 (b1 - tt) (b2 - tt)
+  have h1' := abs_le.mp h1
+  have h2' := abs_le.mp h2
+  have hd : |b1 - tt - (b2 - tt)| ≤ (e2 - e1) + 10 * K := by
+    rw [abs_le]; constructor <;> linarith [h1'.1, h1'.2, h2'.1, h2'.2]
+  have h3 := abs_le.mp (hl.trans (mul_le_mul_of_nonneg_left hd hpos))
+  linarith [h3.1, h3.2]
+
+/-- ORDER, TDB source arm: `d ↦ d − (tt + P d)` is strictly increasing as soon as L < 1 -/
+theorem tdb_source_strictly_increasing (hK : 0 ≤ K) (hEB : 0 ≤ EB) (hM1 : 0 ≤ M1) (tt d1 d2 : ℝ)
+    (hL : K * (1 + EB) * M1 < 1) (h : d1 < d2) :
+    d1 - (tt + P K EB M0 M1 d1) < d2 - (tt + P K EB M0 M1 d2) := by
+  have hl := P_lipschitz K EB M0 M1 hK hEB hM1 d1 d2
+  rw [abs_sub_comm d1 d2, abs_of_pos (by linarith : 0 < d2 - d1)] at hl
+  have h3 := abs_le.mp hl
+  nlinarith [h3.1, h3.2]
+
+/-! ### the loops of the code produce such estimates: shape of the three looping arms at ℝ -/
+
+/-- ET target arm at ℝ: `tt + P(s + tt)` for an estimate `s` within 5K of the TAI seconds -/
+theorem etTgtDeltaG_shape (hK : 0 ≤ K) (tt t : ℝ) :
+    ∃ s, |s - t| ≤ 5 * K ∧ etTgtDeltaG Real.sin K EB M0 M1 tt t = tt + P K EB M0 M1 (s + tt) :=
+  ⟨_, five_steps_near K _ (etStepTgtG_near K EB M0 M1 hK) t, by unfold etTgtDeltaG; exact deltaEtTaiG_real K EB M0 M1 tt _⟩
+
+/-- ET source arm at ℝ: `tt + P(b − tt)` for an estimate `b` within 5K of the ET seconds -/
+theorem etSrcDeltaG_shape (hK : 0 ≤ K) (tt e : ℝ) :
+    ∃ b, |b - e| ≤ 5 * K ∧ etSrcDeltaG Real.sin K EB M0 M1 tt e = tt + P K EB M0 M1 (b - tt) :=
+  ⟨_, five_steps_near K _ (etStepSrcG_near K EB M0 M1 hK) e, by unfold etSrcDeltaG; exact deltaEtTaiG_real K EB M0 M1 tt _⟩
+
+/-- TDB target arm at ℝ, early exit included, for ANY threshold `eps` and initial `delta`:
+    `P(s + tt)` (with `M0 := TAU/360·G0`, `M1 := G1`) for an estimate `s` within 5K of the TAI seconds -/
+theorem tdbTgtGammaG_shape (hK : 0 ≤ K) (TAU c360 G0 G1 tt eps c1e8 t : ℝ) :
+    ∃ s, |s - t| ≤ 5 * K ∧
+      tdbTgtGammaG Real.sin (fun x : ℝ => |x|) TAU c360 G0 G1 K EB tt eps c1e8 t
+        = P K EB (TAU / c360 * G0) G1 (s + tt) := by
+  refine ⟨tdbLoopG (fun x : ℝ => |x|) (innerGG Real.sin TAU c360 G0 G1 K EB) eps 5 t c1e8, ?_, rfl⟩
+  have h := tdbLoopG_near K hK (innerGG Real.sin TAU c360 G0 G1 K EB)
+    (fun x => by rw [innerGG_real]; exact P_abs_le K EB _ G1 hK x) eps 5 t c1e8
+  push_cast at h; exact h
+
+/-! ### the statements of the property for the real-arithmetic algorithm (generic constants) -/
+
+/-- (i) ET − TAI as computed by the TARGET arm vs the NAIF closed form at the resulting ET seconds -/
+theorem et_target_closed_form (hK : 0 ≤ K) (hEB : 0 ≤ EB) (hM1 : 0 ≤ M1) (tt t : ℝ) :
+    let off := etTgtDeltaG Real.sin K EB M0 M1 tt t
+    |off - (tt + P K EB M0 M1 (t + off))| ≤ K * (1 + EB) * M1 * (6 * K) := by
+  obtain ⟨s, hs, he⟩ := etTgtDeltaG_shape K EB M0 M1 hK tt t
+  simp only [he]
+  exact (target_deviation K EB M0 M1 hK hEB hM1 tt t s hs).1
+
+/-- (i) ET − TAI as computed by the SOURCE arm vs the NAIF closed form at the given ET seconds -/
+theorem et_source_closed_form (hK : 0 ≤ K) (hEB : 0 ≤ EB) (hM1 : 0 ≤ M1) (tt e : ℝ) (htt : 0 ≤ tt) :
+    |etSrcDeltaG Real.sin K EB M0 M1 tt e - (tt + P K EB M0 M1 e)| ≤ K * (1 + EB) * M1 * (tt + 5 * K) := by
+  obtain ⟨b, hb, he⟩ := etSrcDeltaG_shape K EB M0 M1 hK tt e
+  rw [he]
+  exact et_source_deviation K EB M0 M1 hK hEB hM1 tt e b htt hb
+
+/-- (i) TDB − TAI as computed by the TARGET arm (`tt + gamma`) vs the ESA closed form at the resulting TDB seconds -/
+theorem tdb_target_closed_form (hK : 0 ≤ K) (hEB : 0 ≤ EB) (TAU c360 G0 G1 tt eps c1e8 t : ℝ) (hG1 : 0 ≤ G1) :
+    let off := tt + tdbTgtGammaG Real.sin (fun x : ℝ => |x|) TAU c360 G0 G1 K EB tt eps c1e8 t
+    |off - (tt + P K EB (TAU / c360 * G0) G1 (t + off))| ≤ K * (1 + EB) * G1 * (6 * K) := by
+  obtain ⟨s, hs, he⟩ := tdbTgtGammaG_shape K EB hK TAU c360 G0 G1 tt eps c1e8 t
+  simp only [he]
+  exact (target_deviation K EB _ G1 hK hEB hG1 tt t s hs).1
+
+/-- (i) TDB − TAI as computed by the SOURCE arm IS the ESA closed form at the given TDB seconds -/
+theorem tdb_source_closed_form (TAU c360 G0 G1 tt d : ℝ) :
+    tt + innerGG Real.sin TAU c360 G0 G1 K EB d = tt + P K EB (TAU / c360 * G0) G1 d := rfl
+
+/-- (ii) TAI → ET → TAI -/
+theorem et_round_trip_real (hK : 0 ≤ K) (hEB : 0 ≤ EB) (hM1 : 0 ≤ M1) (tt t : ℝ) (htt : 0 ≤ tt) :
+    let et := t + etTgtDeltaG Real.sin K EB M0 M1 tt t
+    |(et - etSrcDeltaG Real.sin K EB M0 M1 tt et) - t| ≤ K * (1 + EB) * M1 * (tt + 11 * K) := by
+  obtain ⟨s, hs, he⟩ := etTgtDeltaG_shape K EB M0 M1 hK tt t
+  simp only [he]
+  obtain ⟨b, hb, he'⟩ := etSrcDeltaG_shape K EB M0 M1 hK tt (t + (tt + P K EB M0 M1 (s + tt)))
+  rw [he']
+  exact et_round_trip K EB M0 M1 hK hEB hM1 tt t s b htt hs hb
+
+/-- (ii) ET → TAI → ET -/
+theorem et_round_trip_rev_real (hK : 0 ≤ K) (hEB : 0 ≤ EB) (hM1 : 0 ≤ M1) (tt e : ℝ) (htt : 0 ≤ tt) :
+    let tai := e - etSrcDeltaG Real.sin K EB M0 M1 tt e
+    |(tai + etTgtDeltaG Real.sin K EB M0 M1 tt tai) - e| ≤ K * (1 + EB) * M1 * (tt + 11 * K) := by
+  obtain ⟨b, hb, he⟩ := etSrcDeltaG_shape K EB M0 M1 hK tt e
+  simp only [he]
+  obtain ⟨s, hs, he'⟩ := etTgtDeltaG_shape K EB M0 M1 hK tt (e - (tt + P K EB M0 M1 (b - tt)))
+  rw [he']
+  exact et_round_trip_rev K EB M0 M1 hK hEB hM1 tt e b s htt hb hs
+
+/-- (ii) TAI → TDB → TAI -/
+theorem tdb_round_trip_real (hK : 0 ≤ K) (hEB : 0 ≤ EB) (TAU c360 G0 G1 tt eps c1e8 t : ℝ) (hG1 : 0 ≤ G1) :
+    let tdb := t + (tt + tdbTgtGammaG Real.sin (fun x : ℝ => |x|) TAU c360 G0 G1 K EB tt eps c1e8 t)
+    |(tdb - (tt + innerGG Real.sin TAU c360 G0 G1 K EB tdb)) - t| ≤ K * (1 + EB) * G1 * (6 * K) := by
+  obtain ⟨s, hs, he⟩ := tdbTgtGammaG_shape K EB hK TAU c360 G0 G1 tt eps c1e8 t
+  simp only [he, innerGG_real]
+  exact tdb_round_trip K EB _ G1 hK hEB hG1 tt t s hs
+
+/-- (ii) TDB → TAI → TDB -/
+theorem tdb_round_trip_rev_real (hK : 0 ≤ K) (hEB : 0 ≤ EB) (TAU c360 G0 G1 tt eps c1e8 d : ℝ) (hG1 : 0 ≤ G1) :
+    let tai := d - (tt + innerGG Real.sin TAU c360 G0 G1 K EB d)
+    |(tai + (tt + tdbTgtGammaG Real.sin (fun x : ℝ => |x|) TAU c360 G0 G1 K EB tt eps c1e8 tai)) - d|
+      ≤ K * (1 + EB) * G1 * (6 * K) := by
+  simp only [innerGG_real]
+  obtain ⟨s, hs, he⟩ := tdbTgtGammaG_shape K EB hK TAU c360 G0 G1 tt eps c1e8 (d - (tt + P K EB (TAU / c360 * G0) G1 d))
+  rw [he]
+  exact tdb_round_trip_rev K EB _ G1 hK hEB hG1 tt d s hs
+
+/-- (iii) order, TAI → ET -/
+theorem et_target_order_real (hK : 0 ≤ K) (hEB : 0 ≤ EB) (hM1 : 0 ≤ M1) (tt t1 t2 : ℝ) (hlt : t1 < t2)
+    (hgap : K * (1 + EB) * M1 * ((t2 - t1) + 10 * K) < t2 - t1) :
+    t1 + etTgtDeltaG Real.sin K EB M0 M1 tt t1 < t2 + etTgtDeltaG Real.sin K EB M0 M1 tt t2 := by
+  obtain ⟨s1, hs1, he1⟩ := etTgtDeltaG_shape K EB M0 M1 hK tt t1
+  obtain ⟨s2, hs2, he2⟩ := etTgtDeltaG_shape K EB M0 M1 hK tt t2
+  rw [he1, he2]
+  exact target_order K EB M0 M1 hK hEB hM1 tt t1 t2 s1 s2 hs1 hs2 hlt hgap
+
+/-- (iii) order, ET → TAI -/
+theorem et_source_order_real (hK : 0 ≤ K) (hEB : 0 ≤ EB) (hM1 : 0 ≤ M1) (tt e1 e2 : ℝ) (hlt : e1 < e2)
+    (hgap : K * (1 + EB) * M1 * ((e2 - e1) + 10 * K) < e2 - e1) :
+    e1 - etSrcDeltaG Real.sin K EB M0 M1 tt e1 < e2 - etSrcDeltaG Real.sin K EB M0 M1 tt e2 := by
+  obtain ⟨b1, hb1, he1⟩ := etSrcDeltaG_shape K EB M0 M1 hK tt e1
+  obtain ⟨b2, hb2, he2⟩ := etSrcDeltaG_shape K EB M0 M1 hK tt e2
+  rw [he1, he2]
+  exact et_source_order K EB M0 M1 hK hEB hM1 tt e1 e2 b1 b2 hb1 hb2 hlt hgap
+
+/-- (iii) order, TAI → TDB (the two instants may leave the loop at different rounds) -/
+theorem tdb_target_order_real (hK : 0 ≤ K) (hEB : 0 ≤ EB) (TAU c360 G0 G1 tt eps c1e8 t1 t2 : ℝ) (hG1 : 0 ≤ G1) (hlt : t1 < t2)
+    (hgap : K * (1 + EB) * G1 * ((t2 - t1) + 10 * K) < t2 - t1) :
+    t1 + (tt + tdbTgtGammaG Real.sin (fun x : ℝ => |x|) TAU c360 G0 G1 K EB tt eps c1e8 t1)
+      < t2 + (tt + tdbTgtGammaG Real.sin (fun x : ℝ => |x|) TAU c360 G0 G1 K EB tt eps c1e8 t2) := by
+  obtain ⟨s1, hs1, he1⟩ := tdbTgtGammaG_shape K EB hK TAU c360 G0 G1 tt eps c1e8 t1
+  obtain ⟨s2, hs2, he2⟩ := tdbTgtGammaG_shape K EB hK TAU c360 G0 G1 tt eps c1e8 t2
+  rw [he1, he2]
+  exact target_order K EB _ G1 hK hEB hG1 tt t1 t2 s1 s2 hs1 hs2 hlt hgap
+
+/-- (iii) order, TDB → TAI: strictly increasing, no gap needed -/
+theorem tdb_source_order_real (hK : 0 ≤ K) (hEB : 0 ≤ EB) (TAU c360 G0 G1 tt d1 d2 : ℝ) (hG1 : 0 ≤ G1)
+    (hL : K * (1 + EB) * G1 < 1) (h : d1 < d2) :
+    d1 - (tt + innerGG Real.sin TAU c360 G0 G1 K EB d1) < d2 - (tt + innerGG Real.sin TAU c360 G0 G1 K EB d2) := by
+  simp only [innerGG_real]
+  exact tdb_source_strictly_increasing K EB _ G1 hK hEB hG1 tt d1 d2 hL h
+
+/-- (iii) sharper for ET, whose loop has no exit test: each loop body is (1+L)-Lipschitz, so TAI ↦ ET is
+    STRICTLY increasing (no gap needed) whenever L(1+L)⁵ < 1 -/
+theorem et_target_strictly_increasing (hK : 0 ≤ K) (hEB : 0 ≤ EB) (hM1 : 0 ≤ M1) (tt : ℝ)
     (hsmall : K * (1 + EB) * M1 * (1 + K * (1 + EB) * M1) ^ 5 < 1) (t1 t2 : ℝ) (h : t1 < t2) :
-    t1 + etMinusTai Real.sin K EB M0 M1 tt t1 < t2 + etMinusTai Real.sin K EB M0 M1 tt t2 := by
-  unfold etMinusTai
+    t1 + etTgtDeltaG Real.sin K EB M0 M1 tt t1 < t2 + etTgtDeltaG Real.sin K EB M0 M1 tt t2 := by
   have hL : 0 ≤ K * (1 + EB) * M1 := by positivity
-  have h1 := P_lipschitz K EB M0 M1 hK hEB hM1 (iterate Real.sin K EB M0 M1 1 5 t1 + tt) (iterate Real.sin K EB M0 M1 1 5 t2 + tt)
-  have h2 := iterate_lipschitz K EB M0 M1 hK hEB hM1 1 (by simp) 5 t1 t2
-  have h3 : |iterate Real.sin K EB M0 M1 1 5 t1 + tt - (iterate Real.sin K EB M0 M1 1 5 t2 + tt)|
-      = |iterate Real.sin K EB M0 M1 1 5 t1 - iterate Real.sin K EB M0 M1 1 5 t2| := by congr 1; ring
-  rw [h3] at h1
-  have h4 : |t1 - t2| = t2 - t1 := by rw [abs_sub_comm, abs_of_pos (by linarith)]
-  have h5 : |P K EB M0 M1 (iterate Real.sin K EB M0 M1 1 5 t1 + tt) - P K EB M0 M1 (iterate Real.sin K EB M0 M1 1 5 t2 + tt)|
-      ≤ K * (1 + EB) * M1 * (1 + K * (1 + EB) * M1) ^ 5 * (t2 - t1) := by
-    refine h1.trans ?_
-    rw [← h4]
-    calc K * (1 + EB) * M1 * |iterate Real.sin K EB M0 M1 1 5 t1 - iterate Real.sin K EB M0 M1 1 5 t2|
-        ≤ K * (1 + EB) * M1 * ((1 + K * (1 + EB) * M1) ^ 5 * |t1 - t2|) := mul_le_mul_of_nonneg_left h2 hL
-      _ = K * (1 + EB) * M1 * (1 + K * (1 + EB) * M1) ^ 5 * |t1 - t2| := by ring
-  have h6 := abs_le.mp h5
-  have h7 : K * (1 + EB) * M1 * (1 + K * (1 + EB) * M1) ^ 5 * (t2 - t1) < t2 - t1 := by
+  have hstep : ∀ a b, |etStepTgtG Real.sin K EB M0 M1 a - etStepTgtG Real.sin K EB M0 M1 b|
+      ≤ (1 + K * (1 + EB) * M1) * |a - b| := by
+    intro a b
+    rw [etStepTgtG_real, etStepTgtG_real,
+      show a + P K EB M0 M1 a - (b + P K EB M0 M1 b) = (a - b) + (P K EB M0 M1 a - P K EB M0 M1 b) by ring]
+    refine (abs_add_le _ _).trans ?_
+    have := P_lipschitz K EB M0 M1 hK hEB hM1 a b
+    linarith
+  have h5 : ∀ a b, |etStepTgtG Real.sin K EB M0 M1 (etStepTgtG Real.sin K EB M0 M1 (etStepTgtG Real.sin K EB M0 M1
+        (etStepTgtG Real.sin K EB M0 M1 (etStepTgtG Real.sin K EB M0 M1 a))))
+      - etStepTgtG Real.sin K EB M0 M1 (etStepTgtG Real.sin K EB M0 M1 (etStepTgtG Real.sin K EB M0 M1
+        (etStepTgtG Real.sin K EB M0 M1 (etStepTgtG Real.sin K EB M0 M1 b))))|
+      ≤ (1 + K * (1 + EB) * M1) ^ 5 * |a - b| := by
+    intro a b
+    have hc : 0 ≤ 1 + K * (1 + EB) * M1 := by linarith
+    refine (hstep _ _).trans ?_
+    rw [show (1 + K * (1 + EB) * M1) ^ 5 * |a - b|
+        = (1 + K * (1 + EB) * M1) * ((1 + K * (1 + EB) * M1) * ((1 + K * (1 + EB) * M1) *
+          ((1 + K * (1 + EB) * M1) * ((1 + K * (1 + EB) * M1) * |a - b|)))) by ring]
+    refine mul_le_mul_of_nonneg_left ((hstep _ _).trans ?_) hc
+    refine mul_le_mul_of_nonneg_left ((hstep _ _).trans ?_) hc
+    refine mul_le_mul_of_nonneg_left ((hstep _ _).trans ?_) hc
+    exact mul_le_mul_of_nonneg_left (hstep _ _) hc
+  unfold etTgtDeltaG
+  simp only [deltaEtTaiG_real]
+  have h1 := P_lipschitz K EB M0 M1 hK hEB hM1
+    (etStepTgtG Real.sin K EB M0 M1 (etStepTgtG Real.sin K EB M0 M1 (etStepTgtG Real.sin K EB M0 M1
+        (etStepTgtG Real.sin K EB M0 M1 (etStepTgtG Real.sin K EB M0 M1 t1)))) + tt)
+    (etStepTgtG Real.sin K EB M0 M1 (etStepTgtG Real.sin K EB M0 M1 (etStepTgtG Real.sin K EB M0 M1
+        (etStepTgtG Real.sin K EB M0 M1 (etStepTgtG Real.sin K EB M0 M1 t2)))) + tt)
+  rw [add_sub_add_right_eq_sub] at h1
+  have h2 := h5 t1 t2
+  rw [abs_sub_comm t1 t2, abs_of_pos (by linarith : 0 < t2 - t1)] at h2
+  have h3 := abs_le.mp (h1.trans (mul_le_mul_of_nonneg_left h2 hL))
+  have h7 : K * (1 + EB) * M1 * ((1 + K * (1 + EB) * M1) ^ 5 * (t2 - t1)) < t2 - t1 := by
     have : 0 < t2 - t1 := by linarith
-    calc K * (1 + EB) * M1 * (1 + K * (1 + EB) * M1) ^ 5 * (t2 - t1) < 1 * (t2 - t1) :=
-          mul_lt_mul_of_pos_right hsmall this
+    calc K * (1 + EB) * M1 * ((1 + K * (1 + EB) * M1) ^ 5 * (t2 - t1))
+        = K * (1 + EB) * M1 * (1 + K * (1 + EB) * M1) ^ 5 * (t2 - t1) := by ring
+      _ < 1 * (t2 - t1) := mul_lt_mul_of_pos_right hsmall this
       _ = t2 - t1 := one_mul _
-  show t1 + (tt + P K EB M0 M1 (iterate Real.sin K EB M0 M1 1 5 t1 + tt)) < t2 + (tt + P K EB M0 M1 (iterate Real.sin K EB M0 M1 1 5 t2 + tt))
-  linarith [h6.1, h6.2]
+  linarith [h3.1, h3.2]
 
 /-! ### the numbers, for the NAIF (ET) and ESA (TDB) constants -/
 
-/-- ET: closed-form deviation ≤ 3.4·10⁻¹² s, round trip ≤ 1.09·10⁻⁸ s (< 20 ns), strictly increasing -/
+/-- ET: closed-form deviation ≤ 3.4·10⁻¹² s (target) and ≤ 1.09·10⁻⁸ s (source), round trip ≤ 1.09·10⁻⁸ s
+    (< 20 ns), strictly increasing, and every gap ≥ 100 ns is an order-preserving gap -/
 theorem et_numbers :
     let K : ℝ := 1657 / 1000000; let EB : ℝ := 1671 / 100000; let M1 : ℝ := 199096871 / 1000000000000000
     let tt : ℝ := 32184 / 1000
     K * (1 + EB) * M1 * (6 * K) ≤ 34 / 10000000000000 ∧
     K * (1 + EB) * M1 * (tt + 11 * K) ≤ 109 / 10000000000 ∧
-    K * (1 + EB) * M1 * (1 + K * (1 + EB) * M1) ^ 5 < 1 := by
+    K * (1 + EB) * M1 * (1 + K * (1 + EB) * M1) ^ 5 < 1 ∧
+    K * (1 + EB) * M1 * (tt + 5 * K) ≤ 109 / 10000000000 ∧
+    K * (1 + EB) * M1 ≤ 4 / 10000000000 ∧ 10 * K ≤ 2 / 100 := by
   norm_num
 
 /-- TDB (same shape of formula with the ESA constants; the mean anomaly rate is 1.99091…e-7 rad/s) -/
@@ -204,23 +485,107 @@ theorem tdb_numbers :
     let tt : ℝ := 32184 / 1000
     K * (1 + EB) * M1 * (6 * K) ≤ 34 / 10000000000000 ∧
     K * (1 + EB) * M1 * (tt + 11 * K) ≤ 109 / 10000000000 ∧
-    K * (1 + EB) * M1 * (1 + K * (1 + EB) * M1) ^ 5 < 1 := by
+    K * (1 + EB) * M1 * (1 + K * (1 + EB) * M1) ^ 5 < 1 ∧
+    K * (1 + EB) * M1 * (tt + 5 * K) ≤ 109 / 10000000000 ∧
+    K * (1 + EB) * M1 ≤ 4 / 10000000000 ∧ 10 * K ≤ 2 / 100 := by
   norm_num
 
-/-- ET: the three statements with the NAIF constants plugged in — PARTIAL: real arithmetic -/
-theorem et_real_algorithm_partial (t : ℝ) :
+/-- a gap of 100 ns or more is order preserving for any L ≤ 4·10⁻¹⁰ and 10K ≤ 0.02 -/
+theorem order_gap_numbers (L K10 gap : ℝ) (hL0 : 0 ≤ L) (hL : L ≤ 4 / 10000000000) (hK : K10 ≤ 2 / 100)
+    (hgap : 1 / 10000000 ≤ gap) : L * (gap + K10) < gap := by
+  have h1 : L * (gap + K10) ≤ 4 / 10000000000 * (gap + 2 / 100) := by
+    have hg : 0 ≤ gap + K10 ∨ gap + K10 < 0 := le_or_gt _ _
+    rcases hg with hg | hg
+    · exact (mul_le_mul_of_nonneg_right hL hg).trans (mul_le_mul_of_nonneg_left (by linarith) (by norm_num))
+    · have : L * (gap + K10) ≤ 0 := mul_nonpos_of_nonneg_of_nonpos hL0 hg.le
+      nlinarith
+  linarith
+
+/-- ET: the statements of the property with the NAIF constants plugged in — PARTIAL: real arithmetic.
+    For every `t` (TAI seconds past J2000), `e` (ET seconds past J2000): closed form within 3.4·10⁻¹² s
+    (TAI → ET) resp. 1.09·10⁻⁸ s (ET → TAI), both round trips within 1.09·10⁻⁸ s, order preserved (strictly
+    for TAI → ET; for gaps of 100 ns or more for ET → TAI). -/
+theorem et_real_algorithm_partial (t e : ℝ) :
     let K : ℝ := 1657 / 1000000; let EB : ℝ := 1671 / 100000; let M0 : ℝ := 1559999 / 250000
     let M1 : ℝ := 199096871 / 1000000000000000; let tt : ℝ := 32184 / 1000
-    let et := t + etMinusTai Real.sin K EB M0 M1 tt t
-    |etMinusTai Real.sin K EB M0 M1 tt t - (tt + P K EB M0 M1 et)| ≤ 34 / 10000000000000 ∧
-    |(et - etMinusTaiBack Real.sin K EB M0 M1 tt et) - t| ≤ 109 / 10000000000 := by
-  intro K EB M0 M1 tt et
+    let toEt : ℝ → ℝ := fun t => t + etTgtDeltaG Real.sin K EB M0 M1 tt t
+    let toTai : ℝ → ℝ := fun e => e - etSrcDeltaG Real.sin K EB M0 M1 tt e
+    |(toEt t - t) - (tt + P K EB M0 M1 (toEt t))| ≤ 34 / 10000000000000 ∧
+    |(e - toTai e) - (tt + P K EB M0 M1 e)| ≤ 109 / 10000000000 ∧
+    |toTai (toEt t) - t| ≤ 109 / 10000000000 ∧
+    |toEt (toTai e) - e| ≤ 109 / 10000000000 ∧
+    (∀ t', t < t' → toEt t < toEt t') ∧
+    (∀ e', e + 1 / 10000000 ≤ e' → toTai e < toTai e') := by
+  intro K EB M0 M1 tt toEt toTai
   have hK : (0:ℝ) ≤ K := by norm_num [K]
   have hEB : (0:ℝ) ≤ EB := by norm_num [EB]
   have hM1 : (0:ℝ) ≤ M1 := by norm_num [M1]
+  have htt : (0:ℝ) ≤ tt := by norm_num [tt]
   have hn := et_numbers
   simp only at hn
-  exact ⟨(closed_form_deviation K EB M0 M1 hK hEB hM1 tt t).trans hn.1,
-         (round_trip_error K EB M0 M1 hK hEB hM1 tt t (by norm_num [tt])).trans hn.2.1⟩
+  refine ⟨?_, ?_, ?_, ?_, ?_, ?_⟩
+  · have h := et_target_closed_form K EB M0 M1 hK hEB hM1 tt t
+    simp only at h
+    simp only [toEt, add_sub_cancel_left]
+    exact h.trans hn.1
+  · have h := et_source_closed_form K EB M0 M1 hK hEB hM1 tt e htt
+    simp only [toTai, sub_sub_cancel]
+    exact h.trans hn.2.2.2.1
+  · exact (et_round_trip_real K EB M0 M1 hK hEB hM1 tt t htt).trans hn.2.1
+  · exact (et_round_trip_rev_real K EB M0 M1 hK hEB hM1 tt e htt).trans hn.2.1
+  · intro t' h
+    exact et_target_strictly_increasing K EB M0 M1 hK hEB hM1 tt hn.2.2.1 t t' h
+  · intro e' h
+    refine et_source_order_real K EB M0 M1 hK hEB hM1 tt e e' (by linarith) ?_
+    exact order_gap_numbers _ _ _ (by positivity) hn.2.2.2.2.1 hn.2.2.2.2.2 (by linarith)
+
+/-- TDB: the statements of the property with the ESA constants plugged in (`TAU = 2π`, 357.528°, the loop's
+    threshold 1e-9 and initial delta 1e8 as in the code; the theorem does not depend on these two) — PARTIAL:
+    real arithmetic.  For every `t` (TAI seconds past J2000), `d` (TDB seconds past J2000): closed form within
+    3.4·10⁻¹² s (TAI → TDB; exact for TDB → TAI), both round trips within 3.4·10⁻¹² s, order preserved
+    (gaps of 100 ns or more for TAI → TDB, whose loop may exit at different rounds; strictly for TDB → TAI). -/
+theorem tdb_real_algorithm_partial (t d : ℝ) :
+    let K : ℝ := 829 / 500000; let EB : ℝ := 167 / 10000; let G0 : ℝ := 357528 / 1000
+    let G1 : ℝ := 1990910018065731 / 10000000000000000000000; let tt : ℝ := 32184 / 1000
+    let g0 : ℝ := 2 * Real.pi / 360 * G0
+    let toTdb : ℝ → ℝ := fun t => t + (tt + tdbTgtGammaG Real.sin (fun x : ℝ => |x|) (2 * Real.pi) 360 G0 G1 K EB tt
+                                          (1 / 1000000000) 100000000 t)
+    let toTai : ℝ → ℝ := fun d => d - (tt + innerGG Real.sin (2 * Real.pi) 360 G0 G1 K EB d)
+    |(toTdb t - t) - (tt + P K EB g0 G1 (toTdb t))| ≤ 34 / 10000000000000 ∧
+    (d - toTai d) = tt + P K EB g0 G1 d ∧
+    |toTai (toTdb t) - t| ≤ 34 / 10000000000000 ∧
+    |toTdb (toTai d) - d| ≤ 34 / 10000000000000 ∧
+    (∀ t', t + 1 / 10000000 ≤ t' → toTdb t < toTdb t') ∧
+    (∀ d', d < d' → toTai d < toTai d') := by
+  intro K EB G0 G1 tt g0 toTdb toTai
+  have hK : (0:ℝ) ≤ K := by norm_num [K]
+  have hEB : (0:ℝ) ≤ EB := by norm_num [EB]
+  have hG1 : (0:ℝ) ≤ G1 := by norm_num [G1]
+  have hn := tdb_numbers
+  simp only at hn
+  refine ⟨?_, ?_, ?_, ?_, ?_, ?_⟩
+  · have h := tdb_target_closed_form K EB hK hEB (2 * Real.pi) 360 G0 G1 tt (1 / 1000000000) 100000000 t hG1
+    simp only at h
+    simp only [toTdb, add_sub_cancel_left]
+    exact h.trans hn.1
+  · simp only [toTai, sub_sub_cancel]; rfl
+  · exact (tdb_round_trip_real K EB hK hEB (2 * Real.pi) 360 G0 G1 tt _ _ t hG1).trans hn.1
+  · exact (tdb_round_trip_rev_real K EB hK hEB (2 * Real.pi) 360 G0 G1 tt _ _ d hG1).trans hn.1
+  · intro t' h
+    refine tdb_target_order_real K EB hK hEB (2 * Real.pi) 360 G0 G1 tt _ _ t t' hG1 (by linarith) ?_
+    exact order_gap_numbers _ _ _ (by positivity) hn.2.2.2.2.1 hn.2.2.2.2.2 (by linarith)
+  · intro d' h
+    refine tdb_source_order_real K EB hK hEB (2 * Real.pi) 360 G0 G1 tt d d' hG1 ?_ h
+    exact lt_of_le_of_lt hn.2.2.2.2.1 (by norm_num)
+
+/-- the constants of the two theorems above are the ones of the sources (as exact rationals of the decimal
+    literals), which `naif_constants_pinned` ties to naif0012.txt -/
+theorem real_constants_are_the_sources :
+    Gen.NAIF_K_SRC_RAT = (1657, 1000000) ∧ Gen.NAIF_EB_SRC_RAT = (1671, 100000) ∧
+    Gen.NAIF_M0_SRC_RAT = (1559999, 250000) ∧ Gen.NAIF_M1_SRC_RAT = (199096871, 1000000000000000) ∧
+    Gen.TDB_K_SRC_RAT = (829, 500000) ∧ Gen.TDB_EB_SRC_RAT = (167, 10000) ∧
+    Gen.TDB_G0_DEG_SRC_RAT.1 * 1000 = 357528 * Gen.TDB_G0_DEG_SRC_RAT.2 ∧
+    Gen.TDB_G1_SRC_RAT = (1990910018065731, 10000000000000000000000) ∧
+    Gen.TT_OFFSET_MS * 1000 = 32184 * 1000 := by decide
 
 end Hifi.C07
